@@ -265,7 +265,11 @@ def explore_pairs(farm, rep, jobs, stats, seed):
     INF = 1 << 60
     ph1, idx = [], []
     for j, job in enumerate(jobs):
-        calls = [with_clock(CALLS[job["a"]]), with_clock(CALLS[job["b"]])]
+        calls = [with_clock(job.get("op_a") or CALLS[job["a"]]), with_clock(job.get("op_b") or CALLS[job["b"]])]
+        if job.get("op_a") is not None:
+            for ci, c in enumerate(calls):
+                if "slot" in c:
+                    c["slot"] = 20 + ci  # two calls never share a live parser instance
         job["calls"] = calls
         job["base"] = {"calls": calls, "warm": job["warm"], "zone": "UTC"}
         ph1 += [("checks.c20_sched:run_seq", dict(job["base"], order=[0, 1])), ("checks.c20_sched:run_seq", dict(job["base"], order=[1, 0])), ("checks.c20_sched:run_plan", dict(job["base"], plan=[[0, INF]], record=True))]
@@ -358,6 +362,36 @@ def explore_pairs(farm, rep, jobs, stats, seed):
         for fn in sorted(funcs):
             rep.violation(dict(sig, site_func=fn), {"run": "%s-%s-%s-k%d" % (an, bn, "warm" if job["warm"] else "cold", k), "seed": seed, "calls": job["calls"], "names": [an, bn], "warm": job["warm"], "plan": plan, "observed": val["outs"], "sequential": job["seqs"], "switch_site": site},
                           "%s pre-empted at step %d/%d (%s:%d in %s), %s run to completion, then resumed: got %s; sequential orders give %s" % (an, k, len(job["evA"]), site[1], site[2], site[3], bn, json.dumps(val["outs"])[:300], json.dumps(job["seqs"])[:300]))
+
+
+GENERATED_KINDS = ("parse", "search", "jalali", "hijri", "get_date_data", "get_date_tuple")
+
+
+def generated_jobs(farm, rep, seed, n, budget_steps):
+    """Pairs of calls drawn from the seeded call generator of C03 (same pools, same settings variants,
+    same scenario templates): both calls come from ONE generated history, so they share languages and
+    differ in the settings keys the shared state is keyed by."""
+    from checks import c03_history
+
+    st, pools = farm.call("checks.c03_history:build_pools", {}, 300)
+    if st != "ok":
+        rep.harness_error("pool builder: %s %s" % (st, str(pools)[-300:]))
+        return []
+    jobs = []
+    i = 0
+    while len(jobs) < n and i < 20 * n:
+        rng = seeds.rng_for(seed, PROP, "gen:%d" % i)
+        i += 1
+        h = c03_history.gen_history(rng, pools, "quick")
+        ops = [o for o in h["ops"] if o["op"] in GENERATED_KINDS and not ({"settings_ref", "detect"} & set(o.get("kw") or {})) and (o["op"] not in ("get_date_data", "get_date_tuple") or o.get("ctor") is not None)]
+        if len(ops) < 2:
+            continue
+        a, b = rng.sample(ops, 2)
+        if rng.random() < 0.25:
+            b = copy.deepcopy(a)  # the same call twice
+        nm = "g%d" % i
+        jobs.append({"stratum": "generated", "a": nm + "a", "b": nm + "b", "op_a": copy.deepcopy(a), "op_b": copy.deepcopy(b), "warm": rng.random() < 0.6, "budget_steps": budget_steps, "rng": rng, "by_line": True})
+    return jobs
 
 
 def dispatch(p):
@@ -488,6 +522,13 @@ def main(args):
 
         if not seamprobe.guard(farm, rep):
             return rep.finish({"evaluations": 0, "distinct_nontrivial": 0, "rule": RULE, "samples": []}, ASSUMPTIONS)
+        ngen = 30 if tier == "quick" else 1200
+        if args.runs is None:
+            gj = generated_jobs(farm, rep, seed, ngen, 20 if tier == "quick" else 80)
+            if os.environ.get("VERIF_C20_ONLY_GENERATED"):
+                jobs = []  # (experiments only)
+            st["generated_pairs"] = len(gj)
+            jobs += gj
         explore_pairs(farm, rep, jobs, st, seed)
         nseeded = 150 if tier == "quick" else 6000
         explore_seeded(farm, rep, pairs, tier, seed, st, nseeded)
@@ -499,6 +540,7 @@ def main(args):
         "rule": RULE,
         "samples": [{"pair": list(x[:2]), "warm": x[2], "switch_at": "%s:%d" % (x[3], x[4])} for x in sorted(st["nontrivial"])[:5]],
         "ordered_pairs": n_pairs,
+        "generated_pairs_from_the_history_generator": st.get("generated_pairs", 0),
         "single_preemption_schedules": st["schedules"],
         "seeded_multi_switch_schedules": st["seeded_schedules"],
         "distinct_seeded_interleavings": len(st["seeded_distinct"]),
